@@ -340,3 +340,6 @@ type CoreConfig struct {
 func (c CoreConfig) GetAddress() common.Address      { return c.Address }
 func (c CoreConfig) GetInstanceID() uint64           { return c.InstanceID }
 func (c CoreConfig) GetMaxNumKeysPerMessage() uint64 { return c.MaxKeys }
+
+// PoolOn returns a pool on an existing database object (no copy).
+func PoolOn(db *minipg.DB) *pgxpool.Pool { return pgxpool.NewWithDB("view", db) }
